@@ -243,7 +243,10 @@ struct ReqCfg {
 
 /// the documented calling protocol; returns (text, Some(request) when complete)
 fn run_req(cfg: ReqCfg, ds: &[Vec<u8>]) -> (String, Option<Request>) {
-    let mut r = if cfg.rl.dflt || cfg.hl.dflt || cfg.max.dflt { Request::default() } else { Request::new() };
+    run_req_v(&vec![cfg; ds.len().max(1)], ds, false)
+}
+
+fn apply_req_cfg(r: &mut Request, cfg: &ReqCfg) {
     if !cfg.rl.keep {
         r.request_line_limit = cfg.rl.v;
     }
@@ -253,10 +256,19 @@ fn run_req(cfg: ReqCfg, ds: &[Vec<u8>]) -> (String, Option<Request>) {
     if !cfg.max.keep {
         r.max_message_size = cfg.max.v;
     }
+}
+
+/// `cfgs[i]` is applied before delivery `i` (the limits are public fields and may be changed between calls);
+/// `after_error`: keep calling `parse` after an error (the caller re-presents the whole buffer), which the
+/// documented protocol does not do — used only to see that nothing crashes or allocates out of proportion
+fn run_req_v(cfgs: &[ReqCfg], ds: &[Vec<u8>], after_error: bool) -> (String, Option<Request>) {
+    let c0 = cfgs[0];
+    let mut r = if c0.rl.dflt || c0.hl.dflt || c0.max.dflt { Request::default() } else { Request::new() };
     let mut buf: Vec<u8> = Vec::new();
     let mut acc: Vec<String> = vec![];
     let mut meters: Vec<String> = vec![];
-    for d in ds {
+    for (i, d) in ds.iter().enumerate() {
+        apply_req_cfg(&mut r, &cfgs[i.min(cfgs.len() - 1)]);
         buf.extend_from_slice(d);
         let m = Meter::start();
         let res = std::panic::catch_unwind(std::panic::AssertUnwindSafe(|| r.parse(&buf)));
@@ -268,7 +280,9 @@ fn run_req(cfg: ReqCfg, ds: &[Vec<u8>]) -> (String, Option<Request>) {
             },
             Ok(Err(e)) => {
                 acc.push(format!("E:{}", cat(&e)));
-                return (format!("{} #a={}", acc.join(" "), meters.join(";")), None);
+                if !after_error {
+                    return (format!("{} #a={}", acc.join(" "), meters.join(";")), None);
+                }
             },
             Ok(Ok(res)) => {
                 if res.consumed > buf.len() {
@@ -291,9 +305,18 @@ fn run_req(cfg: ReqCfg, ds: &[Vec<u8>]) -> (String, Option<Request>) {
 }
 
 fn run_resp(hl: Lim, ds: &[Vec<u8>]) -> (String, Option<Response>) {
+    run_resp_x(hl, None, ds, false)
+}
+
+/// `pre`: bytes the caller has put into the public `body` field before the first call;
+/// `after_error`: as in `run_req_v`
+fn run_resp_x(hl: Lim, pre: Option<&[u8]>, ds: &[Vec<u8>], after_error: bool) -> (String, Option<Response>) {
     let mut r = if hl.dflt { Response::default() } else { Response::new() };
     if !hl.keep {
         r.headers.set_line_limit(hl.v);
+    }
+    if let Some(p) = pre {
+        r.body = p.to_vec();
     }
     let mut buf: Vec<u8> = Vec::new();
     let mut acc: Vec<String> = vec![];
@@ -310,7 +333,9 @@ fn run_resp(hl: Lim, ds: &[Vec<u8>]) -> (String, Option<Response>) {
             },
             Ok(Err(e)) => {
                 acc.push(format!("E:{}", cat(&e)));
-                return (format!("{} #a={}", acc.join(" "), meters.join(";")), None);
+                if !after_error {
+                    return (format!("{} #a={}", acc.join(" "), meters.join(";")), None);
+                }
             },
             Ok(Ok(res)) => {
                 if res.consumed > buf.len() {
@@ -330,6 +355,18 @@ fn run_resp(hl: Lim, ds: &[Vec<u8>]) -> (String, Option<Response>) {
         format!("{} | {} #a={} #d={:016x}", acc.join(" "), resp_fields(&r), meters.join(";"), fnv(&format!("{:?}", r))),
         None,
     )
+}
+
+fn req_cfgs(s: &str) -> Option<Vec<ReqCfg>> {
+    s.split(';')
+        .map(|c| {
+            let f: Vec<&str> = c.split(',').collect();
+            if f.len() != 3 {
+                return None;
+            }
+            Some(ReqCfg { rl: lim(f[0])?, hl: lim(f[1])?, max: lim(f[2])? })
+        })
+        .collect()
 }
 
 fn deliveries(s: &str) -> Option<Vec<Vec<u8>>> {
@@ -357,6 +394,23 @@ fn exec(t: &[&str]) -> String {
     match t {
         ["REQ", _tree, _ov, rl, hl, mx, ds] => match (lim(rl), lim(hl), lim(mx), deliveries(ds)) {
             (Some(rl), Some(hl), Some(max), Some(ds)) => run_req(ReqCfg { rl, hl, max }, &ds).0,
+            _ => "bad-op".into(),
+        },
+        ["REQV", _tree, _ov, cfgs, ds] => match (req_cfgs(cfgs), deliveries(ds)) {
+            (Some(cs), Some(ds)) if cs.len() == ds.len() => run_req_v(&cs, &ds, false).0,
+            _ => "bad-op".into(),
+        },
+        // implementation only: parse called again after an error
+        ["REQE", _tree, _ov, cfgs, ds] => match (req_cfgs(cfgs), deliveries(ds)) {
+            (Some(cs), Some(ds)) if cs.len() == ds.len() => run_req_v(&cs, &ds, true).0,
+            _ => "bad-op".into(),
+        },
+        ["RESPE", _tree, _ov, hl, ds] => match (lim(hl), deliveries(ds)) {
+            (Some(hl), Some(ds)) => run_resp_x(hl, None, &ds, true).0,
+            _ => "bad-op".into(),
+        },
+        ["RESPPRE", _tree, _ov, hl, pre, ds] => match (lim(hl), unhex(pre), deliveries(ds)) {
+            (Some(hl), Some(pre), Some(ds)) => run_resp_x(hl, Some(&pre), &ds, false).0,
             _ => "bad-op".into(),
         },
         ["RESP", _tree, _ov, hl, ds] => match (lim(hl), deliveries(ds)) {
